@@ -37,6 +37,10 @@ func (c *CacheConfig) setRestartNeededProps() {
 	c.LockShards.SetRequiresRestart()
 }
 
+// The upper bound of cache.lock_shards. Far more shards than there can be concurrent requests
+// only cost memory, and a count in the billions makes creating the cache panic.
+const maxLockShards = 1 << 20
+
 func (c *CacheConfig) verify() error {
 	if c.MaxCacheSize.Read().Bytes() <= 0 {
 		return fmt.Errorf("cache.max_cache_size must be greater than 0")
@@ -49,6 +53,10 @@ func (c *CacheConfig) verify() error {
 	}
 	if c.LockShards.Read() < 1 {
 		return fmt.Errorf("cache.lock_shards must be at least 1")
+	}
+	if c.LockShards.Read() > maxLockShards {
+		// One lock is allocated per shard when the cache is created
+		return fmt.Errorf("cache.lock_shards must be at most %d", maxLockShards)
 	}
 	if c.File.Dir.Read() == "" {
 		return fmt.Errorf("cache.file.dir cannot be empty")
